@@ -81,7 +81,10 @@ FORMS = {
     "same-name-renamed-c": ("use c::Ren;", "Ren", ("import", "c", "OtherC")),
     "same-name-b": ("use b::PLACEN;", "PLACEN", ("import", "b", "N")),
     "dash-crate": ("use d_e::PLACEN;", "PLACEN", ("import", "d_e", "N")),
+    # a second file of crate a imports the same name from crate c (used by C06's hash-ws group: which import survives must not depend on hashing)
+    "same-name-both-imported": ("use b::PLACEN;", "PLACEN", ("import", "b", "N")),
 }
+A_OTHER_C = "use c::PLACEN;\n#[typeshare]\npub struct Local { pub q: bool, pub r: PLACEN }\n"
 POSITIONS = {
     "field": "#[typeshare]\npub struct User { pub f: %s }\n",
     "vec": "#[typeshare]\npub struct User { pub f: Vec<%s> }\n",
@@ -101,7 +104,7 @@ DEPTHS = {"lib": "a/src/lib.rs", "module": "a/src/models/m.rs", "deep": "a/src/x
 def workspace(form, pos, depth):
     use, spelled, expect = FORMS[form]
     a_src = (use + "\n" if use else "") + "use std::collections::HashMap;\n" + POSITIONS[pos] % spelled
-    files = [("a", DEPTHS[depth], a_src), ("a", "a/src/other.rs", A_OTHER)]
+    files = [("a", DEPTHS[depth], a_src), ("a", "a/src/other.rs", A_OTHER_C if form == "same-name-both-imported" else A_OTHER)]
     if form == "dash-crate":
         files.append(("d_e", "d-e/src/lib.rs", B_LIB))
     else:
@@ -467,7 +470,7 @@ def case_file_name(case):
 def run(rep, tier, only=None):
     prog()
     t0 = time.time()
-    forms = list(FORMS)
+    forms = [f for f in FORMS if f != "same-name-both-imported"]   # that one imports the name from two crates on purpose (C06 hash-ws)
     poss = list(POSITIONS)
     icases = []
     for lang in ("typescript", "kotlin"):
